@@ -53,7 +53,8 @@ def gen_spec(rng):
                 for b in ("border_left", "border_right", "border_top", "border_bottom"):
                     spec[k].pop(b, None)
         return spec
-    strategy = rng.choice(["plain", "plain", "plain", "page_by", "page_by_new", "subline"])
+    strategy = rng.choice(["plain", "plain", "plain", "page_by", "page_by_new", "subline", "nested",
+                           "subline_page_by"])
     multi = rng.random() < 0.7
     n = rng.randint(8, 40) if multi else rng.randint(1, 5)
     big = rng.random() < 0.04
@@ -216,7 +217,12 @@ def check_single(ctx, spec, doc, case):
             continue
 
         def skipt(ci, k=k):
-            return bool(k) and user_row_has(body, dfs, "top", k[0])
+            # only the cells whose OWN top border the user set are exempt; the other cells of that row still
+            # carry border_first
+            if not k:
+                return False
+            dcols = E.displayed_columns(dfs, body)
+            return ci < len(dcols) and user_border(body, "top", k[0], dcols[ci]) != ""
         expect_all(row, "top", want, f"first data row of page {p + 1} top edge != "
                                      f"{'rtf_page' if (p == 0 and not has_header) else 'rtf_body'}.border_first",
                    skip_user=skipt, counter="page_first_data_row_checks")
